@@ -132,6 +132,10 @@ func init() {
 	for _, p := range []string{"C03", "C04", "C05", "C06", "C07", "C08"} {
 		Properties[p] = func(env *Env) []*Harness { return []*Harness{HGenSeq()} }
 	}
+	Properties["C02"] = func(env *Env) []*Harness { return []*Harness{HMock(), HGenSeq()} }
+	Properties["C09"] = func(env *Env) []*Harness { return []*Harness{HMock()} }
+	Properties["C10"] = func(env *Env) []*Harness { return []*Harness{HMock()} }
+	Properties["C19"] = func(env *Env) []*Harness { return []*Harness{HMock(), HVars(), HRun(), HMain(), HPairName()} }
 	Properties["C12"] = func(env *Env) []*Harness { return []*Harness{HVars()} }
 	Properties["C14"] = func(env *Env) []*Harness { return []*Harness{HOrder()} }
 	Properties["C15"] = func(env *Env) []*Harness { return []*Harness{HRun()} }
